@@ -768,6 +768,8 @@ def nd_setitem(interp, arr, slice_node, v):
     from .interp import Undecided
 
     used("ndarray element/slice/fancy assignment")
+    if getattr(arr.store, "maybe_alias", False):
+        raise Undecided("in-place write to the result of np.asarray(<ndarray>): whether it aliases the argument depends on the dtype")
     interp.note_write(arr.store, "elements")
     parts = _index_parts(interp, arr, slice_node)
     if any(p[0] in ("list", "arr") for p in parts):
@@ -1568,6 +1570,7 @@ def _shallowcopy(interp, v):
         return v.snapshot()
     if isinstance(v, Obj):
         r = Obj(v.cls)
+        r.partial = getattr(v, "partial", True)
         r.fields.update(v.fields)
         return r
     if isinstance(v, list):
@@ -1590,6 +1593,7 @@ def _deepcopy(interp, v, memo=None):
             r = x.snapshot()
         elif isinstance(x, Obj):
             r = Obj(x.cls)
+            r.partial = getattr(x, "partial", True)
             seen[id(x)] = r
             for k, f in x.fields.items():
                 r.fields[k] = cp(f)
@@ -1693,6 +1697,26 @@ def _np_array(interp, a, dtype=None):
         return t if t is not None else z3.IntVal(0)
 
     return new_array((n,), f1, "array1")
+
+
+def _np_asarray(interp, a, dtype=None):
+    """[A] np.asarray(x[, dtype]): a list -> new array (as np.array).  An ndarray: numpy returns x ITSELF when no dtype is asked
+    for or the dtype already matches, and a converted copy otherwise.  The engine knows the dtype of schema inputs only
+    (Store.dtype): known -> exact (alias or copy); unknown -> a snapshot marked `maybe_alias` (reading it is exact either way; an
+    in-place write to it leaves the accepted subset: Undecided)"""
+    if not isinstance(a, NDArr):
+        return _np_array(interp, a, dtype)
+    used("np.asarray of an ndarray (alias when the dtype matches)")
+    if dtype is None:
+        return a
+    want = getattr(dtype, "name", None) or getattr(dtype, "__name__", None) or str(dtype)
+    want = {"int": "int", "float": "float", "int64": "int", "float64": "float"}.get(want)
+    have = getattr(a.store, "dtype", None)
+    if want is not None and have is not None:
+        return a if want == have else a.snapshot()
+    r = a.snapshot()
+    r.store.maybe_alias = True
+    return r
 
 
 def _np_shape(interp, a):
@@ -2079,7 +2103,7 @@ def _np_abs(interp, x):
 
 NUMPY = {
     "abs": _np_abs, "absolute": _np_abs, "zeros": _np_zeros, "ones": _np_ones, "eye": _np_eye, "identity": _np_eye, "multiply": _np_multiply,
-    "copy": _np_copy, "array": _np_array, "asarray": _np_array, "shape": _np_shape, "vstack": _np_vstack,
+    "copy": _np_copy, "array": _np_array, "asarray": _np_asarray, "shape": _np_shape, "vstack": _np_vstack,
     "ix_": _np_ix, "hstack": _np_hstack, "append": _np_append, "block": _np_block, "insert": _np_insert, "delete": _np_delete,
     "nonzero": _np_nonzero, "array_equal": _np_array_equal, "all": _np_all, "any": _np_any, "split": _np_split,
 }
